@@ -166,6 +166,40 @@ pub fn acc_obs<T: ShortMessage>(m: &T) -> Vec<i64> {
     acc_obs_m!(m)
 }
 
+/// The accessor list through `&M` *as the implementor* (a generic instantiated with a reference
+/// type, or a method call on a `&&M`), if the crate implements the trait for references at all
+/// (autoref-specialisation probe: the original crate does not).
+pub struct RefProbe<T>(pub T);
+pub trait ViaRefYes {
+    fn via_ref(&self) -> Option<Vec<i64>>;
+}
+impl<'a, M> ViaRefYes for RefProbe<&'a M>
+where
+    &'a M: ShortMessage,
+{
+    fn via_ref(&self) -> Option<Vec<i64>> {
+        Some(acc_obs::<&'a M>(&self.0))
+    }
+}
+pub trait ViaRefNo {
+    fn via_ref(&self) -> Option<Vec<i64>> {
+        None
+    }
+}
+impl<T> ViaRefNo for &RefProbe<T> {}
+
+/// Formatting with `{:?}` into a sink that discards everything: must not panic.
+pub struct NullSink;
+impl core::fmt::Write for NullSink {
+    fn write_str(&mut self, _s: &str) -> core::fmt::Result {
+        Ok(())
+    }
+}
+pub fn debug_touch<T: core::fmt::Debug>(x: &T) -> bool {
+    use core::fmt::Write;
+    region(|| write!(NullSink, "{:?} {:#?}", x, x).is_ok()) == Some(true)
+}
+
 /// Runs `$body` with `$m` bound to the message (s,a,b) built as implementor kind `$k`.
 macro_rules! with_kind {
     ($k:expr, $s:expr, $a:expr, $b:expr, $m:ident => $body:expr) => {
@@ -212,6 +246,61 @@ fn convert_obs<A: ShortMessage, B: ShortMessageFactory>(m: &A, conv: i64) -> Opt
     o.extend(acc_obs(&m2));
     o.extend_from_slice(&region(|| bytes_of(&m2))?);
     Some(o)
+}
+
+// the same two observations with the constructors called by path on the *concrete* type (an
+// inherent associated function of the same name would shadow the trait's)
+macro_rules! ctor_obs_m {
+    ($t:ty, $idx:expr, $x:expr, $y:expr, $z:expr) => {{
+
+    let r: Option<$t> = region(|| match $idx {
+        0 => <$t>::note_on(ch($x), kn($y), u7($z)),
+        1 => <$t>::note_off(ch($x), kn($y), u7($z)),
+        2 => <$t>::control_change(ch($x), cn($y), u7($z)),
+        3 => <$t>::program_change(ch($x), u7($y)),
+        4 => <$t>::polyphonic_key_pressure(ch($x), kn($y), u7($z)),
+        5 => <$t>::channel_pressure(ch($x), u7($y)),
+        6 => <$t>::pitch_bend_change(ch($x), u14($y)),
+        7 => <$t>::system_exclusive_start(),
+        8 => <$t>::time_code_quarter_frame(TimeCodeQuarterFrame::from(u7($x))),
+        9 => <$t>::song_position_pointer(u14($x)),
+        10 => <$t>::song_select(u7($x)),
+        11 => <$t>::tune_request(),
+        12 => <$t>::system_exclusive_end(),
+        13 => <$t>::timing_clock(),
+        14 => <$t>::start(),
+        15 => <$t>::r#continue(),
+        16 => <$t>::stop(),
+        17 => <$t>::active_sensing(),
+        _ => <$t>::system_reset(),
+    });
+    match r {
+        None => vec![PANIC],
+        Some(m) => {
+            let mut o = bytes_of(&m).to_vec();
+            o.extend(acc_obs(&m));
+            o
+        }
+    }
+
+    }};
+}
+
+macro_rules! generic_ctor_obs_m {
+    ($t:ty, $which:expr, $code:expr, $c:expr, $a:expr, $b:expr) => {{
+
+    let t = ShortMessageType::try_from($code as u8).unwrap();
+    let r: Option<$t> = region(|| match $which {
+        0 => <$t>::channel_message(t, ch($c), u7($a), u7($b)),
+        1 => <$t>::system_common_message(t, u7($a), u7($b)),
+        _ => <$t>::system_real_time_message(t),
+    });
+    match r {
+        None => vec![PANIC],
+        Some(m) => bytes_of(&m).to_vec(),
+    }
+
+    }};
 }
 
 fn ctor_obs<T: ShortMessageFactory>(idx: i64, x: i64, y: i64, z: i64) -> Vec<i64> {
@@ -367,7 +456,8 @@ pub fn exec(tag: i64, inp: &[i64]) -> Vec<i64> {
         20 => with_kind!(inp[0], inp[1], inp[2], inp[3], m => {
             // method syntax on the concrete type, then whether the generic (trait) path agrees
             let mut o = acc_obs_m!(m);
-            let same = (o == acc_obs(&m)) as i64;
+            let via_ref = (&RefProbe(&m)).via_ref();
+            let same = (o == acc_obs(&m) && via_ref.map(|v| v == o).unwrap_or(true) && debug_touch(&m)) as i64;
             o.push(same);
             o
         }),
@@ -398,18 +488,25 @@ pub fn exec(tag: i64, inp: &[i64]) -> Vec<i64> {
             r.unwrap_or_else(|| vec![PANIC])
         }
         60 => {
-            if inp[0] == K_STRUCT {
-                ctor_obs::<StructuredShortMessage>(inp[1], inp[2], inp[3], inp[4])
+            // generic path; the path on the concrete type must give the same
+            let (g, c) = if inp[0] == K_STRUCT {
+                (ctor_obs::<StructuredShortMessage>(inp[1], inp[2], inp[3], inp[4]),
+                 ctor_obs_m!(StructuredShortMessage, inp[1], inp[2], inp[3], inp[4]))
             } else {
-                ctor_obs::<RawShortMessage>(inp[1], inp[2], inp[3], inp[4])
-            }
+                (ctor_obs::<RawShortMessage>(inp[1], inp[2], inp[3], inp[4]),
+                 ctor_obs_m!(RawShortMessage, inp[1], inp[2], inp[3], inp[4]))
+            };
+            if g == c { g } else { let mut o = c; o.push(-94); o }
         }
         61 => {
-            if inp[0] == K_STRUCT {
-                generic_ctor_obs::<StructuredShortMessage>(inp[1], inp[2], inp[3], inp[4], inp[5])
+            let (g, c) = if inp[0] == K_STRUCT {
+                (generic_ctor_obs::<StructuredShortMessage>(inp[1], inp[2], inp[3], inp[4], inp[5]),
+                 generic_ctor_obs_m!(StructuredShortMessage, inp[1], inp[2], inp[3], inp[4], inp[5]))
             } else {
-                generic_ctor_obs::<RawShortMessage>(inp[1], inp[2], inp[3], inp[4], inp[5])
-            }
+                (generic_ctor_obs::<RawShortMessage>(inp[1], inp[2], inp[3], inp[4], inp[5]),
+                 generic_ctor_obs_m!(RawShortMessage, inp[1], inp[2], inp[3], inp[4], inp[5]))
+            };
+            if g == c { g } else { let mut o = c; o.push(-94); o }
         }
         62 => test_util_obs(inp[0], inp[1], inp[2], inp[3]),
         63 => {
